@@ -259,6 +259,7 @@ def run_case(case):
                           'messages': [x.brief() for x in msgs][:30],
                           'final': run.state_nf}
     _lost_cas_runs(c0, case, base, cand, res, brng, shape)
+    _db_retry_runs(c0, case, base, res, brng, shape)
     # executor redelivery
     if case.get('executor') == 'remote':
         runs = [m for m in msgs if m.method == 'run_action']
@@ -392,8 +393,9 @@ def _lost_cas_runs(c0, case, base, cand, res, brng, shape):
     for label, model, nth in tasks_t + wf_t:
         st = {'stolen': None, 'n': 0}
 
-        def hook(w, st=st, label=label, model=model, nth=nth):
-            bhook, _ = _pause_plan(case, {})
+        bhook, bphases = _pause_plan(case, {})
+
+        def hook(w, st=st, label=label, model=model, nth=nth, bhook=bhook):
             if bhook:
                 bhook(w)
             orig = sa_api.update_on_match
@@ -416,7 +418,6 @@ def _lost_cas_runs(c0, case, base, cand, res, brng, shape):
             sa_api.update_on_match = uom
             w._restore_uom = lambda: setattr(sa_api, 'update_on_match',
                                              orig)
-        _, bphases = _pause_plan(case, {})
         run = ec.execute(c0, replay=base.choices, setup_hook=hook,
                          phases=bphases, exc_allow=('ValueError',))
         if hasattr(run.world, '_restore_uom'):
@@ -437,8 +438,12 @@ def _lost_cas_runs(c0, case, base, cand, res, brng, shape):
                 (ev.get('ulabel') or '') == 'ptx<' + label
             if not mine:
                 continue
+            # (a post-commit unit runs several independent queued
+            # operations: for a workflow-state target only what belongs to
+            # that workflow's completion is attributed to the loser)
             if ev['kind'] == 'RPC_SEND' and ev['method'] in (
-                    'start_task', 'start_workflow', 'run_action'):
+                    'start_task', 'start_workflow', 'run_action') and \
+                    model == 'TaskExecution':
                 effects.append('sent %s' % ev.get('brief'))
             if ev['kind'] == 'RPC_SEND' and \
                     ev['method'] == 'on_action_complete' and \
@@ -449,7 +454,8 @@ def _lost_cas_runs(c0, case, base, cand, res, brng, shape):
             if ev['kind'] == 'ATTR_SET' and \
                     ev.get('model') == 'TaskExecution' and \
                     ev.get('col') == 'workflow_execution_id' and \
-                    ev.get('new'):
+                    ev.get('new') and (model == 'TaskExecution' or
+                                       ev['new'] == oid):
                 effects.append('created a task execution')
         if effects:
             res['violations'].append({
@@ -459,6 +465,85 @@ def _lost_cas_runs(c0, case, base, cand, res, brng, shape):
                 'msg': 'unit %s lost the compare-and-swap of a %s state '
                        '(another process got there first) and still %s' % (
                            label, model, '; '.join(sorted(set(effects))[:4]))})
+
+
+def _db_retry_runs(c0, case, base, res, brng, shape):
+    """A transaction of the engine is hit by a transient database error (a
+    deadlock reported at its k-th writing statement) and the engine's own
+    retry decorator runs the handler again: the message is, in effect,
+    handled twice with the first handling rolled back.  The run must end like
+    the run without the error; no action may run twice."""
+    from oslo_db import exception as db_exc
+    from sqlalchemy import event
+    import mistral.db.sqlalchemy.base as b
+    labels = []
+    for ev in base.world.rec.events:
+        if ev['kind'] == 'UNIT_END' and ev.get('ukind2') == 'rpc' and \
+                not ev.get('exc') and ev.get('label') and any(
+                    m in ev['label'] for m in ('on_action_complete',
+                                               'start_task',
+                                               'start_workflow')):
+            labels.append(ev['label'])
+    labels = sorted(set(labels))
+    brng.shuffle(labels)
+    for label in labels[:3]:
+        k = brng.randint(1, 5)
+        st = {'n': 0, 'hit': None}
+
+        bhook, bphases = _pause_plan(case, {})
+
+        def hook(w, st=st, label=label, k=k, bhook=bhook):
+            if bhook:
+                bhook(w)
+            engine = b.get_engine()
+
+            def inject(conn, cursor, statement, parameters, context,
+                       executemany):
+                u = w.coop.current()
+                if st['hit'] is not None or u is None or u.label != label:
+                    return
+                head = statement.lstrip()[:6].upper()
+                if head in ('SELECT', 'PRAGMA'):
+                    return
+                st['n'] += 1
+                if st['n'] == k:
+                    st['hit'] = (u.uid, len(w.rec.events))
+                    w.rec.emit('FAULT', fault='db-deadlock', stmt=head,
+                               unit_label=label)
+                    raise db_exc.DBDeadlock()
+            event.listen(engine, 'before_cursor_execute', inject)
+            w._remove_inject = lambda: event.remove(
+                engine, 'before_cursor_execute', inject)
+        run = ec.execute(c0, replay=base.choices, setup_hook=hook,
+                         phases=bphases, exc_allow=('ValueError',))
+        try:
+            run.world._remove_inject()
+        except Exception:
+            pass
+        res['executions'] += 1
+        _collect(res, run)
+        if run.inconclusive:
+            res['inconclusive'] = 'db retry: %s' % run.inconclusive
+            continue
+        if st['hit'] is None:
+            continue
+        res['monitor_evaluations']['db-retry'] = \
+            res['monitor_evaluations'].get('db-retry', 0) + 1
+        res['keys'].append(['db-retry', shape, label.split('(')[0], k])
+        desc = {'deadlock_in': label, 'at_write_statement': k}
+        for v in run.violations:
+            res['violations'].append(dict(v, db_retry=desc))
+        d = ec.compare_runs(base, run, case['det'])
+        if not d and _counts(base.rows) != _counts(run.rows):
+            d = 'row counts %s != %s' % (_counts(base.rows),
+                                         _counts(run.rows))
+        if d:
+            res['violations'].append({
+                'prop': 'C06', 'monitor': 'db-retry',
+                'mech': 'retried-transaction-has-effect', 'db_retry': desc,
+                'msg': 'a deadlock at write statement %d of %s (handler '
+                       'retried by the engine) changed the run: %s' % (
+                           k, label, d)})
 
 
 def _results_per_run(res, run, what):
